@@ -44,8 +44,8 @@ def run(S):
     ALL = ('call', 'array', 'dict', 'params', 'destruct')
     if S.tier == 'quick':
         # (the real-parser two-pass harness below covers all five constructs on whole documents; the relexing harness keeps the deeper gap enumeration for two)
-        f6 = twopass.explore(S, max_items=1, constructs=('call', 'params'), gaps=G4, ws_alts=A3, max_spaces=2)
-        f6 += twopass.explore(S, max_items=1, constructs=('array', 'dict', 'destruct'), gaps=[(), ('sp',), ('blk',)], ws_alts=[' ', '\n'], max_spaces=2)
+        f6 = twopass.explore(S, max_items=1, constructs=('call',), gaps=G4, ws_alts=A3, max_spaces=2)
+        f6 += twopass.explore(S, max_items=1, constructs=('params', 'array', 'dict', 'destruct'), gaps=[(), ('sp',), ('blk',)], ws_alts=[' ', '\n'], max_spaces=2)
         f6 += twopass.explore(S, max_items=2, constructs=('call',), gaps=[(), ('sp',)], ws_alts=A3, min_items=2)
     else:
         f6 = twopass.explore(S, max_items=1, constructs=ALL, max_spaces=4)
@@ -53,12 +53,12 @@ def run(S):
     # line comments (they force the broken layout; their line break is part of the following whitespace token)
     GL = [(), ('sp',), ('lc', 'nlsp'), ('sp', 'lc', 'nlsp')]
     if S.tier == 'quick':
-        f6 += twopass.explore(S, max_items=1, constructs=('call', 'params'), gaps=GL, ws_alts=A3, max_spaces=2)
+        f6 += twopass.explore(S, max_items=1, constructs=('call',), gaps=GL, ws_alts=A3, max_spaces=2)
     else:
         f6 += twopass.explore(S, max_items=1, constructs=ALL, gaps=GL, ws_alts=A3, max_spaces=4)
         f6 += twopass.explore(S, max_items=2, constructs=('call', 'array'), gaps=GL, ws_alts=[' ', '\n'], max_spaces=3, min_items=2)
     # items that always expand (a code block with two statements) inside a list on a text line
-    f6 += twopass.explore(S, max_items=2, constructs=('call', 'array'), gaps=[(), ('sp',)] if S.tier == 'quick' else [(), ('sp',), ('blk',)],
+    f6 += twopass.explore(S, max_items=2, constructs=('call',) if S.tier == 'quick' else ('call', 'array'), gaps=[(), ('sp',)] if S.tier == 'quick' else [(), ('sp',), ('blk',)],
                           ws_alts=[' ', '\n'], max_spaces=3, min_items=1, last_kinds=('cblock2', 'cblock1'))
     # content blocks `f[..]` with words, embedded code and blanks / line breaks at every position
     f6 += twopass.explore_content(S, max_atoms=2 if S.tier == 'quick' else 3)
@@ -77,7 +77,7 @@ def run(S):
     rdocs = reparse.TABLE_DOCS + reparse.NORMALISE_DOCS + reparse.BLOCK_DOCS + reparse.MISC_DOCS + deep.DOCS + deep.PROSE + reparse.corpus_docs(S) + reparse.in_contexts(reparse.COMMENT_DOCS) + reparse.PROSE_LINE_DOCS + reparse.EVAL_DOCS
     if S.tier != 'quick':
         rdocs += deep.OFF_DOCS + deep.CODE_DOCS + deep.EMBED_DOCS
-    fr, covr = reparse.explore(S, rdocs, tabs=(2,) if S.tier == 'quick' else (2, 4), widths=(0, 40, 1 << 30) if S.tier == 'quick' else (0, 20, 40, 80, 120, 1 << 30))
+    fr, covr = reparse.explore(S, rdocs, tabs=(2,) if S.tier == 'quick' else (2, 4), widths=(0, 1 << 30) if S.tier == 'quick' else (0, 20, 40, 80, 120, 1 << 30))
     reparse.report(S, 'C03', fr)
     # with reordering on, the chosen order must not depend on spacing that formatting normalises
     f4 = c19.explore_spacing(S, 2 if S.tier == 'quick' else 3)
